@@ -158,6 +158,8 @@ type Decl struct {
 	Impls   []*Impl
 	Doc     []string // doc comment lines, without leading "// "
 	Group   int      // >0: member of grouped type declaration number Group (same file)
+	// GroupDoc: doc comment written before the "type (" line (first member of the group only)
+	GroupDoc []string
 	// time helpers: for named time/date types the synthesiser writes
 	// MarshalJSON/UnmarshalJSON (and SQL helpers) in the other file
 	TimeHelpers bool
@@ -289,6 +291,7 @@ func (pkg *Pkg) render() map[string]string {
 				for j < len(decls) && decls[j].Group == d.Group {
 					j++
 				}
+				writeDoc(sb, d.GroupDoc, "") // a comment on the group itself (first member carries it)
 				sb.WriteString("type (\n")
 				for _, g := range decls[i:j] {
 					writeDoc(sb, g.Doc, "\t")
